@@ -120,6 +120,12 @@ FLAVOURS = ["PROKARYOTIC", "EUKARYOTIC"]
 # ----------------------------------------------------------------------------------------------------------------
 # oracle self-test
 # ----------------------------------------------------------------------------------------------------------------
+def setup(ctx):
+    from bcv import core
+
+    core.codon_storm(ctx)
+
+
 def selftest():
     from bcv.core import HarnessError
 
